@@ -82,7 +82,7 @@ def showCall : Call → String
   | .completed id => s!"S{id}c"
   | .handler id => s!"H{id}"
 
-def showIds (xs : List Nat) : String := showList (xs.map toString)
+def showIds (k : String) (xs : List Nat) : String := showList (xs.map fun i => k ++ toString i)
 def showNamed (xs : List (String × Nat)) : String := showList (xs.map fun p => s!"{p.1}:{p.2}")
 
 /-- first-seen numbering of addresses (the Go side numbers pointers the same way) -/
@@ -98,7 +98,7 @@ structure Seen where
 def showOut (sn : Seen) : Out → Seen × Option String
   | .none => (sn, none)
   | .bad => (sn, some "bad-op")
-  | .sorted p r s => (sn, some s!"p{showIds p} r{showIds r} s{showIds s}")
+  | .sorted p r s => (sn, some (showIds "P" p ++ " " ++ showIds "R" r ++ " " ++ showIds "S" s))
   | .pass => (sn, some "pass")
   | .block b => (sn, some ("block " ++ showBE b))
   | .escaped => (sn, some "escaped")
@@ -108,9 +108,9 @@ def showOut (sn : Seen) : Out → Seen × Option String
   | .ident c t =>
     let (cs, ci) := canon sn.cs c
     let (ts, ti) := canon sn.ts t
-    ({ cs := cs, ts := ts }, some s!"c{ci} t{ti}")
+    ({ cs := cs, ts := ts }, some s!"ctx {ci} tr {ti}")
   | .berr b => (sn, some (showBE b))
-  | .gorder p r s => (sn, some s!"p{showNamed p} r{showNamed r} s{showNamed s}")
+  | .gorder p r s => (sn, some (showNamed p ++ " " ++ showNamed r ++ " " ++ showNamed s))
 
 def stepModel (st : State × Seen) (ts : List String) (_ : String) : (State × Seen) × Option String :=
   match parseOp? ts with
